@@ -1,5 +1,6 @@
 """G rules: the signal protocol in signal.rs.  DESIGN.md §3.6."""
 from engine import rule
+from mir import private_helper as mir_private_helper
 import fam
 import sem
 from sem import labels, has, contains
@@ -60,6 +61,10 @@ def all_atomic_sites(ctx, field):
     for key, b in ctx.facts.bodies.items():
         # resolve receivers per path (cheap) for bodies that call atomics at all
         if not any(atomic_method(n) for n in b.callee_names()):
+            continue
+        if field == 'state' and mir_private_helper(b) and key.startswith(SIGK) and fam.owners(ctx, key) and all(o.startswith(SIGK) for o in fam.owners(ctx, key)):
+            # a private helper of Signal (`wake_parked`, `finished`, ...) is seen through the functions it is spliced into,
+            # with their arguments
             continue
         ps = ctx.paths(b)
         seen = set()
